@@ -312,6 +312,130 @@ fn real_borrow(sig: &Sig) -> Result<String, String> {
     }
 }
 
+/// Backend emission: what the analysis lists as borrowed-from must be attached to the returned object by the
+/// generated JS / Dart code (edge list + routing of slice copies of struct fields into it) and kept alive by
+/// nanobind. `real` is the analysis' own answer (public API), not the model's.
+fn check_emission(sig: &Sig, real: &str, case: &str, rep: &mut Report) {
+    let src = sig.rust_module();
+    let ni = sig.n_impl();
+    let owner = OPAQUES[sig.owner].0;
+    // (lifetime name, [(param, kind)])
+    let mut per_lt: Vec<(String, Vec<(String, String)>)> = vec![];
+    for part in real.split("; ") {
+        let Some(l) = part.split(' ').find_map(|t| t.strip_prefix("lt=")).and_then(|x| x.parse::<usize>().ok()) else { continue };
+        let edges: Vec<(String, String)> = part.split("edges=").nth(1).unwrap_or("").split(',').filter(|e| !e.is_empty()).filter_map(|e| e.split_once(':').map(|(a, b)| (a.to_string(), b.to_string()))).collect();
+        per_lt.push((lt_name(l, ni), edges));
+    }
+    if per_lt.iter().all(|(_, e)| e.is_empty()) {
+        return;
+    }
+    // which definition slots hold a slice (whose native copy has to live as long as the edge array)
+    let struct_of = |p: &str| -> Option<usize> {
+        let k: usize = p.strip_prefix('p')?.parse().ok()?;
+        match sig.params.get(k)? { PTy::Struct { ty, .. } => Some(*ty), _ => None }
+    };
+    // STRUCTS[0] = St1<'p> { s: slice<'p> }, STRUCTS[1] = St2<'p, 'q> { a: &'p Op0, b: slice<'q> }
+    let slot_has_slice = |ty: usize, slot: usize| -> bool { (STRUCTS[ty].0 == "St1" && slot == 0) || (STRUCTS[ty].0 == "St2" && slot == 1) };
+    let slot_name = |slot: usize| if slot == 0 { "p" } else { "q" };
+    for backend in ["js", "dart", "nanobind"] {
+        let o = tool::run_backend(&src, backend);
+        if !o.ok() {
+            rep.count(&format!("emission:{backend}:{}", o.status().split(':').next().unwrap_or("?")));
+            if let Some(p) = &o.panic {
+                let key = format!("emission-panic:{backend}:{}", p.split(": ").next().unwrap_or("?"));
+                rep.count(&key);
+                if !rep.notes.iter().any(|n| n.starts_with(&key)) {
+                    rep.notes.push(format!("{key} e.g. {} — {}", sig.rust_method(), p));
+                }
+            }
+            continue;
+        }
+        rep.oracle_runs += 1;
+        rep.count(&format!("emission:{backend}:checked"));
+        let mut missing: Vec<String> = vec![];
+        if backend == "nanobind" {
+            // a returned slice / string is copied into a Python object, a returned struct is converted field by
+            // field: keep_alive is only meaningful (and only emitted) for returned opaques
+            if !matches!(sig.ret, RTy::RefOpaque { .. } | RTy::BoxOpaque { .. }) {
+                continue;
+            }
+            let Some(text) = o.files.iter().find(|(k, _)| k.ends_with("_ext.cpp")).map(|(_, v)| v) else { continue };
+            let Some(line) = text.lines().find(|l| l.contains(&format!("&{owner}::f"))) else { continue };
+            let mut keep: BTreeSet<usize> = BTreeSet::new();
+            for (_, edges) in &per_lt {
+                for (p, _) in edges {
+                    let idx = if p == "this" { 1 } else { p[1..].parse::<usize>().unwrap_or(0) + 1 + sig.self_lt.is_some() as usize };
+                    keep.insert(idx);
+                }
+            }
+            for idx in keep {
+                if !line.contains(&format!("nb::keep_alive<0, {idx}>()")) {
+                    missing.push(format!("nb::keep_alive<0, {idx}>() for a borrowed-from parameter"));
+                }
+            }
+        } else {
+            let file = if backend == "js" { format!("{owner}.mjs") } else { format!("{owner}.g.dart") };
+            let Some(text) = o.files.get(&file) else { continue };
+            let text = tool::norm_ws(text);
+            for (lt, edges) in &per_lt {
+                if edges.is_empty() { continue; }
+                let decl = if backend == "js" { format!("let {lt}Edges = [") } else { format!("core.List<Object> {lt}Edges = [") };
+                let Some(at) = text.find(&decl) else { missing.push(format!("no `{decl}…]` although `'{lt}` has incoming edges")); continue };
+                let list = &text[at + decl.len()..];
+                let list = &list[..list.find("];").unwrap_or(list.len())];
+                let items: Vec<&str> = list.split(',').map(|x| x.trim()).collect();
+                for (p, kind) in edges {
+                    let ok = match kind.as_str() {
+                        "opaque" => items.iter().any(|i| *i == p),
+                        "slice" => items.iter().any(|i| *i == format!("{p}Slice") || *i == format!("{p}Arena")),
+                        k if k.starts_with("struct.") => {
+                            let slot: usize = k[7..].parse().unwrap_or(0);
+                            let want = format!("_fieldsForLifetime{}", slot_name(slot).to_uppercase());
+                            let in_list = items.iter().any(|i| i.contains(&format!("{p}.{want}")) || i.contains(&format!("{p}?.{want}")));
+                            // routing of the slice copies
+                            let routed = match struct_of(p) {
+                                Some(ty) if slot_has_slice(ty, slot) => {
+                                    let needle = if backend == "js" { format!(", {p})._") } else { format!("{p}._toFfi(") };
+                                    let needle_opt = if backend == "js" { format!("optionToArgsForCalling({p},") } else { format!("{p}._toFfi(") };
+                                    let seg_at = text.find(&needle).or_else(|| text.find(&needle_opt));
+                                    match seg_at {
+                                        Some(s) => {
+                                            let seg = &text[s..(s + 600).min(text.len())];
+                                            // one native copy, attached to every edge array it is borrowed through
+                                            let key = format!("{}AppendArray: [", slot_name(slot));
+                                            match seg.find(&key) {
+                                                Some(k) => {
+                                                    let l = &seg[k + key.len()..];
+                                                    let l = &l[..l.find(']').unwrap_or(l.len())];
+                                                    l.split(',').any(|x| x.trim() == format!("{lt}Edges"))
+                                                }
+                                                None => false,
+                                            }
+                                        }
+                                        None => false,
+                                    }
+                                }
+                                _ => true,
+                            };
+                            if in_list && !routed {
+                                missing.push(format!("the slice field of `{p}` (slot '{}) is not allocated into `{lt}Edges` (`{}AppendArray: [{lt}Edges]` missing)", slot_name(slot), slot_name(slot)));
+                            }
+                            in_list
+                        }
+                        _ => true,
+                    };
+                    if !ok {
+                        missing.push(format!("`{lt}Edges` does not contain the {kind} edge of `{p}`: [{list}]"));
+                    }
+                }
+            }
+        }
+        if !missing.is_empty() {
+            rep.oracle_fail(case, "a garbage-collected backend does not attach an input the returned value borrows from", json!({"backend": backend, "missing": missing, "analysis": real, "method": sig.rust_method()}));
+        }
+    }
+}
+
 /// rustc decides `'x: 'y` for every ordered pair under the signature's declared + implied bounds.
 /// Returns for each signature the set of (x, y) that rustc proves.
 fn rustc_outlives(sigs: &[&Sig], dir: &std::path::Path) -> Option<Vec<BTreeSet<(usize, usize)>>> {
@@ -412,6 +536,14 @@ pub fn main(args: &[String]) {
             }
         }
         Err(e) => rep.disagree("*", "model-driver", "", &e),
+    }
+    // backend emission on a sample of signatures with edges
+    {
+        let ne = if thorough { 2500 } else { 250 };
+        let with_edges: Vec<&(usize, String)> = accepted.iter().filter(|(_, r)| r.contains("edges=") && r.split("edges=").skip(1).any(|e| !e.is_empty() && !e.starts_with(';') && !e.starts_with(' '))).take(ne).collect();
+        for (i, real) in with_edges {
+            check_emission(&sigs[*i], real, &format!("{} ;; {}", lines[*i], sigs[*i].rust_method()), &mut rep);
+        }
     }
     // rustc oracle: every lifetime the analysis lists as "longer" really must outlive, and vice versa
     let k = if thorough { 400 } else { 40 };
